@@ -28,7 +28,7 @@ def main():
     cov = {"states": 0, "transitions": 0, "traces_validated_against_impl": 0, "samples": [], "tlc_runs": []}
     sc = pipescen.scenarios()
     names = ["valid5", "valid4", "valid3", "validLB", "validLC", "validT5", "validT8", "valid24", "missing_E", "missing_C", "valid8"] + [n for n in sc if n.startswith("rule_") or n.startswith("rule8_")]
-    names += ["lex_U", "syn_C", "dup_C"]
+    names += ["lex_U", "syn_C", "dup_C", "ctxrule_GX", "validGX"]
     if tier == "quick":
         names = [n for n in names if n not in ("rule8_E2", "rule8_S", "rule8_F", "valid4")]
     with ThreadPoolExecutor(max_workers=4) as ex:
@@ -38,7 +38,7 @@ def main():
     for name, res in zip(names, results):
         decls = sc[name]
         labels = {"scenario:" + name, "kind:" + name.split("_")[0].rstrip("8")}
-        single_rule = name.startswith("rule")
+        single_rule = name.split("_")[0] in ("rule", "rule8", "ctxrule")
         ref = None
         want = None
         if single_rule:
